@@ -96,7 +96,7 @@ def run(tier, replay=None):
         # ---- real code: forced deadlock schedules + racing rounds under the race detector
         gbin = grp.build(w)
         nw = 0
-        for wit in ("lockorder", "shutdown"):
+        for wit in ("lockorder", "shutdown", "autokick", "history"):
             rc, out, trace, races = grp.run_mode(w, gbin, "witness", {"VERIF_WITNESS": wit}, timeout=120)
             events, v = grp.validate(w, trace)
             nw += len(events)
@@ -108,6 +108,9 @@ def run(tier, replay=None):
                     rep.violation("%s: forced schedule '%s' never completed; goroutine dump: Close blocked in Mutex.Lock=%s, AddClient blocked=%s"
                                   % (clause, events[line - 1].get("name"), events[line - 1].get("close_blocked"), events[line - 1].get("add_blocked")),
                                   {"part": "witness", "witness": wit})
+            wreps, winscope = grp.race_reports(races)
+            for r0 in winscope[:2]:
+                rep.violation("C13_D2 data race reported by the race detector in scenario '%s':\n%s" % (wit, r0[:1800]), {"part": "witness-race", "witness": wit})
         rc, out, trace, races = grp.run_mode(w, gbin, "conc", {"VERIF_N": "2500" if thorough else "250", "VERIF_STORM": "1"}, timeout=1500)
         if rc != 0:
             raise C.Inconclusive("groupdrive conc failed (exit %d): %s" % (rc, out[-2000:]))
